@@ -75,7 +75,7 @@ Definition sexp_of_name (n : name) : sexp :=
 
 Definition aliases_of (x : sexp) : option (option (list name)) :=
   match x with
-  | L [Sym t] => if t =? "none" then Some None else None
+  | L [Sym t] => if t =? "none" then Some None else if t =? "some" then Some (Some []) else None
   | L (Sym t :: l) => if t =? "some" then option_map Some (mapM name_of l) else None
   | _ => None
   end.
@@ -188,6 +188,48 @@ Fixpoint schema_of (fuel : nat) (x : sexp) {struct fuel} : option schema :=
     else None
   | _ => None
   end end.
+
+(* the inverse direction, in the harness's own format *)
+Definition sexp_of_aliases (al : option (list name)) : sexp :=
+  match al with None => L [Sym "none"] | Some l => L (Sym "some" :: map sexp_of_name l) end.
+Definition sexp_of_attrs (a : attrs) : sexp :=
+  L (Sym "attrs" :: map (fun kv => L [Sym "kv"; Hex (fst kv); sexp_of_json (snd kv)]) a).
+Definition sexp_of_fixed (f : fixedS) : sexp :=
+  L [Sym "fixed"; sexp_of_name (fx_name f); sexp_of_aliases (fx_aliases f); sexp_of_opt Hex (fx_doc f);
+     Num (Z.of_N (fx_size f)); sexp_of_attrs (fx_attrs f)].
+Fixpoint sexp_of_schema (s : schema) : sexp :=
+  match s with
+  | SNull => L [Sym "null"] | SBoolean => L [Sym "boolean"] | SInt => L [Sym "int"] | SLong => L [Sym "long"]
+  | SFloat => L [Sym "float"] | SDouble => L [Sym "double"] | SBytes => L [Sym "bytes"] | SString => L [Sym "string"]
+  | SArray it a => L [Sym "array"; sexp_of_schema it; sexp_of_attrs a]
+  | SMap vt a => L [Sym "map"; sexp_of_schema vt; sexp_of_attrs a]
+  | SUnion bs => L (Sym "union" :: map sexp_of_schema bs)
+  | SRecord n al doc fs a =>
+    L [Sym "record"; sexp_of_name n; sexp_of_aliases al; sexp_of_opt Hex doc;
+       L (Sym "fields" :: map (fun ms : fmeta * schema =>
+                                 let m := fst ms in
+                                 L [Sym "field"; Hex (f_name m); sexp_of_opt Hex (f_doc m);
+                                    L (Sym "aliases" :: map Hex (f_aliases m));
+                                    sexp_of_opt sexp_of_json (f_default m); sexp_of_schema (snd ms);
+                                    sexp_of_attrs (f_attrs m)]) fs);
+       sexp_of_attrs a]
+  | SEnum n al doc symbols dflt a =>
+    L [Sym "enum"; sexp_of_name n; sexp_of_aliases al; sexp_of_opt Hex doc; L (Sym "symbols" :: map Hex symbols);
+       sexp_of_opt Hex dflt; sexp_of_attrs a]
+  | SFixed f => sexp_of_fixed f
+  | SDecimal p sc inner =>
+    L [Sym "decimal"; Num (Z.of_N p); Num (Z.of_N sc);
+       match inner with DBytes => L [Sym "bytes"] | DFixed f => sexp_of_fixed f end]
+  | SBigDecimal => L [Sym "bigdecimal"]
+  | SUuid u => L [Sym "uuid"; match u with UString => L [Sym "string"] | UBytes => L [Sym "bytes"] | UFixed f => sexp_of_fixed f end]
+  | SDate => L [Sym "date"] | STimeMillis => L [Sym "time-millis"] | STimeMicros => L [Sym "time-micros"]
+  | STimestampMillis => L [Sym "timestamp-millis"] | STimestampMicros => L [Sym "timestamp-micros"]
+  | STimestampNanos => L [Sym "timestamp-nanos"]
+  | SLocalTimestampMillis => L [Sym "local-timestamp-millis"] | SLocalTimestampMicros => L [Sym "local-timestamp-micros"]
+  | SLocalTimestampNanos => L [Sym "local-timestamp-nanos"]
+  | SDuration f => L [Sym "duration"; sexp_of_fixed f]
+  | SRef n => L [Sym "ref"; sexp_of_name n]
+  end.
 
 Fixpoint value_of (fuel : nat) (x : sexp) {struct fuel} : option value :=
   match fuel with O => None | S fuel' =>
